@@ -9,9 +9,11 @@ import (
 	"filippo.io/edwards25519"
 
 	"github.com/anyproto/any-sync/commonspace/object/accountdata"
+	"github.com/anyproto/any-sync/commonspace/object/acl/aclrecordproto"
 	"github.com/anyproto/any-sync/commonspace/object/acl/list"
 	"github.com/anyproto/any-sync/commonspace/object/acl/recordverifier"
 	"github.com/anyproto/any-sync/commonspace/spacepayloads"
+	"github.com/anyproto/any-sync/commonspace/spacesyncproto"
 	"github.com/anyproto/any-sync/consensus/consensusproto"
 	"github.com/anyproto/any-sync/util/crypto"
 
@@ -280,6 +282,7 @@ func (c *ctxt) oneToOne(bj *bij, keyNo map[string]int) {
 			}
 		}
 	}
+	c.o2oWriterMutations(a, b, x)
 	// a third account reads no key out of the a-b root
 	if len(ds) > 0 {
 		if rkx, _, ex := o2oKeys(x.priv, ds[0].p); ex == nil && len(rkx) > 0 {
@@ -288,6 +291,86 @@ func (c *ctxt) oneToOne(bj *bij, keyNo map[string]int) {
 	}
 	if _, err := o2oPayload(a.priv, b.pub, "anytype.space"); err == nil {
 		r.Violate(prop, "", "space.o2o.type.oracle", "a non 1-1 type was accepted by the 1-1 constructor", []string{"o2o"})
+	}
+}
+
+// o2oWriterMutations: one party (holding the genuine A–B shared key) re-issues the whole 1-1 space
+// consistently — ACL root, settings root, header, ids, all signed by the genuine joint key — but with
+// a writer list that is not exactly the genuine pair (third identity added, a party dropped,
+// duplicated or replaced, list emptied) or with another owner. "No other key pair derives them": no
+// account listed in such a root may end up with a usable 1-1 state (keys) from it; building the ACL
+// state must fail for every listed account that holds a private key.
+func (c *ctxt) o2oWriterMutations(a, b, x ident) {
+	r := c.r
+	for ti, ty := range []string{spacepayloads.SpaceTypeOneToOne, spacepayloads.SpaceTypeOneToOneAny} {
+		p, err := o2oPayload(a.priv, b.pub, ty)
+		if err != nil {
+			return
+		}
+		shared, err := crypto.GenerateSharedKey(a.priv, b.pub, crypto.AnysyncOneToOneSpacePath)
+		if err != nil {
+			return
+		}
+		kind := []string{"o2o", "o2oany"}[ti]
+		s := &space{kind: kind, v1: true, p: p, sign: shared, master: shared}
+		A, _ := a.pub.Marshall()
+		B, _ := b.pub.Marshall()
+		X, _ := x.pub.Marshall()
+		lo, hi := A, B
+		if bytes.Compare(lo, hi) > 0 {
+			lo, hi = hi, lo
+		}
+		owner, _ := shared.GetPublic().Marshall()
+		type variant struct {
+			name    string
+			writers [][]byte
+			owner   []byte
+			listed  []ident // accounts named in the list (or genuine parties) that must not get a usable state
+		}
+		vs := []variant{
+			{"three-appended", [][]byte{lo, hi, X}, owner, []ident{a, b, x}},
+			{"three-prepended", [][]byte{X, lo, hi}, owner, []ident{a, b, x}},
+			{"three-middle", [][]byte{lo, X, hi}, owner, []ident{a, b, x}},
+			{"three-duplicate", [][]byte{lo, hi, hi}, owner, []ident{a, b}},
+			{"four", [][]byte{lo, hi, X, X}, owner, []ident{a, b, x}},
+			{"one", [][]byte{A}, owner, []ident{a}},
+			{"none", nil, owner, []ident{a, b}},
+			{"duplicate-a", [][]byte{A, A}, owner, []ident{a}},
+			{"duplicate-b", [][]byte{B, B}, owner, []ident{b}},
+			{"b-replaced", [][]byte{A, X}, owner, []ident{a, x}},
+			{"a-replaced", [][]byte{X, B}, owner, []ident{b, x}},
+			{"owner-of-stranger", [][]byte{lo, hi}, X, []ident{a, b}},
+			{"owner-empty", [][]byte{lo, hi}, nil, []ident{a, b}},
+		}
+		for _, v := range vs {
+			info := &aclrecordproto.AclOneToOneInfo{Owner: v.owner, Writers: v.writers}
+			infoBytes, _ := info.MarshalVT()
+			q := reissue(s, reissueOpts{
+				editAcl:    func(root *aclrecordproto.AclRoot) { root.OneToOneInfo = info },
+				editHeader: func(h *spacesyncproto.SpaceHeader) { h.SpaceHeaderPayload = infoBytes },
+			})
+			tag := fmt.Sprintf("%s writers:%s", kind, v.name)
+			// the payload validator does not look into the writer list (a node stores the space); what
+			// must not happen is a usable one-to-one ACL state
+			got := c.try(tag, q, "any")
+			r.Count("o2o.writers." + v.name + ".validator=" + got)
+			for _, acc := range v.listed {
+				rk, _, kerr := o2oKeys(acc.priv, q)
+				if kerr == nil && len(rk) > 0 {
+					r.Violate(prop, "", "space.o2o.writers.oracle",
+						fmt.Sprintf("%s: a 1-1 ACL root signed by the genuine joint key whose writer list is not exactly the genuine pair (%d writers) was accepted by account %s, which derived a read key from it", tag, len(v.writers), acc.label),
+						[]string{tag, describe(q, "full", c.in)})
+				}
+				r.Count(fmt.Sprintf("o2o.writers.%s.acl-state-rejected=%v", v.name, kerr != nil))
+			}
+		}
+		// sanity: the unmodified re-issue is usable by both parties
+		ok := reissue(s, reissueOpts{})
+		for _, acc := range []ident{a, b} {
+			if rk, _, kerr := o2oKeys(acc.priv, ok); kerr != nil || len(rk) == 0 {
+				r.Violate(prop, "", "space.reissue.selfcheck", fmt.Sprintf("harness: a consistently re-issued genuine 1-1 root is not usable by %s: %v", acc.label, kerr), []string{kind})
+			}
+		}
 	}
 }
 
